@@ -22,6 +22,8 @@ pub(crate) const DEFAULT_CACHE_SIZE: usize = 10000;
 pub(crate) const DEFAULT_PAGE_SIZE: usize = MIN_PAGE_SIZE; // 4KB
 pub(crate) const DEFAULT_POOL_SIZE: usize = 10; // Ten workers by default.
 pub(crate) const DEFAULT_BTREE_MIN_KEYS: usize = 3;
+/// Fewest keys per page a B+tree can work with (`Btree::new` asserts it).
+pub(crate) const MIN_KEYS_PER_PAGE: usize = 3;
 pub(crate) const DEFAULT_BTREE_NUM_SIBLINGS_PER_SIDE: usize = 3;
 
 /// Cells are aligned to 64 bits (8 bytes).
@@ -83,7 +85,8 @@ impl DBConfig {
             .clamp(MIN_PAGE_SIZE, MAX_PAGE_SIZE);
         Self {
             pool_size,
-            min_keys_per_page,
+            // the B+tree needs at least MIN_KEYS_PER_PAGE keys per page (see Btree::new)
+            min_keys_per_page: min_keys_per_page.max(MIN_KEYS_PER_PAGE),
             num_siblings_per_side,
             cache_size,
             page_size,
@@ -131,7 +134,7 @@ impl DBConfigBuilder {
 
     /// Sets the minimum keys per B+tree page.
     pub fn min_keys_per_page(mut self, keys: usize) -> Self {
-        self.config.min_keys_per_page = keys.max(2);
+        self.config.min_keys_per_page = keys.max(MIN_KEYS_PER_PAGE);
         self
     }
 
